@@ -54,10 +54,11 @@ pub fn grammar(name: &[u8]) -> Option<(String, Vec<String>, String, String, Stri
     let dh = match parts[2] {
         "25519" => "Curve25519",
         "448" => "Curve448",
-        "P256" => "P256",
+        "P256" if FULL => "P256",
         _ => return None,
     };
     let ci = match parts[3] {
+        "XChaChaPoly" if !FULL => return None,
         "ChaChaPoly" | "XChaChaPoly" | "AESGCM" => parts[3],
         _ => return None,
     };
@@ -361,7 +362,7 @@ pub fn gen_build(run: &mut Run, seed: u64, thorough: bool) {
         for initiator in [true, false] {
             for dh in if thorough { vec!["25519", "448", "P256"] } else { vec![*r.pick(&DHS)] } {
                 let resolver = "toy";
-                let pub_len = pub_len_of(resolver, dh).unwrap();
+                let Some(pub_len) = pub_len_of(resolver, dh) else { continue };   // P256 without the `full` feature
                 for have_s in [false, true] {
                     for have_rs in [false, true] {
                         // modifier variants: none, psk0..psk(nm+1), fallback
@@ -416,7 +417,7 @@ pub fn gen_build(run: &mut Run, seed: u64, thorough: bool) {
         // key lengths (C10 / C12): every length class for s, e, rs; on a pattern that needs all keys (KK)
         // and on this pattern, where the key may be supplied although the role does not need it
         for (dh, kpat) in [("25519", "KK"), ("P256", "KK"), ("448", "KK"), ("25519", *p), ("P256", *p)] {
-            let pub_len = pub_len_of("toy", dh).unwrap();
+            let Some(pub_len) = pub_len_of("toy", dh) else { continue };   // P256 without the `full` feature
             for which in 0..3 {
                 for len in [0usize, 1, 31, 32, 33, pub_len - 1, pub_len, pub_len + 1, 56, 57, 64, 65, 66, 100, 200] {
                     let name = format!("Noise_{kpat}_{dh}_AESGCM_BLAKE2b");
@@ -517,7 +518,11 @@ pub fn gen_resolve(run: &mut Run) {
         ("hash", vec!["SHA256", "SHA512", "Blake2s", "Blake2b"]),
         ("cipher", vec!["ChaChaPoly", "XChaChaPoly", "AESGCM"]),
     ];
-    for e in exprs {
+    // second binary (snow with default features only): no ring backend, no P256 / XChaChaPoly choice values
+    let exprs: Vec<&str> = exprs.iter().copied().filter(|e| FULL || !e.contains("ring")).collect();
+    let kinds: Vec<(&str, Vec<&str>)> =
+        kinds.iter().map(|(k, cs)| (*k, cs.iter().copied().filter(|c| FULL || (*c != "P256" && *c != "XChaChaPoly")).collect())).collect();
+    for e in exprs.iter().copied() {
         for (kind, choices) in &kinds {
             for c in choices {
                 let got = sc.ex.resolve(e, kind, c);
@@ -561,8 +566,10 @@ pub fn gen_resolve(run: &mut Run) {
             let n = 14;
             for step in 0..n {
                 // start with requests some member cannot serve, then everything in random order
-                let (kind, c) = if step < 3 {
+                let (kind, c) = if step < 3 && FULL {
                     [("dh", "Curve448"), ("cipher", "XChaChaPoly"), ("hash", "Blake2s"), ("dh", "P256"), ("cipher", "AESGCM")][r.below(5)]
+                } else if step < 3 {
+                    [("dh", "Curve448"), ("hash", "Blake2s"), ("cipher", "AESGCM")][r.below(3)]
                 } else {
                     all[r.below(all.len())]
                 };
@@ -624,11 +631,21 @@ pub struct TransportCfg {
     pub seed: u64,
     pub steps: usize,
 }
+impl TransportCfg {
+    pub fn adapted(&self) -> TransportCfg {
+        let mut c = self.clone();
+        c.name = adapt_name(&c.name);
+        c.res_i = adapt_res(&c.res_i);
+        c.res_r = adapt_res(&c.res_r);
+        c
+    }
+}
 
 /// Stateful transport: random schedule with reordering, loss, duplication, garbage, reflection,
 /// undersized buffers, rekeys, explicit nonces.  Oracles: C04, C05, C09, C15, C14, C19, C10.
 #[allow(clippy::too_many_lines)]
 pub fn run_transport(cfg: &TransportCfg, sc: &mut Sc) {
+    let cfg = &cfg.adapted();
     sc.ex.comment(&format!("transport {} res_i={} res_r={}", cfg.name, cfg.res_i, cfg.res_r));
     if !quick_pair(sc, &cfg.name, &cfg.res_i, &cfg.res_r, cfg.seed, false) {
         sc.ex.comment("pair not available");
@@ -1105,6 +1122,7 @@ fn ev2(e: &crate::toy::Ev) -> Ev2 {
 
 /// Stateless transport: arbitrary nonces, any order, repetition; equality with the stateful sender.
 pub fn run_stateless(cfg: &TransportCfg, sc: &mut Sc) {
+    let cfg = &cfg.adapted();
     sc.ex.comment(&format!("stateless {} res_i={} res_r={}", cfg.name, cfg.res_i, cfg.res_r));
     // pair A: stateless (sids 1,2). pair B: the same session in stateful mode (sids 3,4) for byte comparison.
     if !quick_pair(sc, &cfg.name, &cfg.res_i, &cfg.res_r, cfg.seed, true) {
@@ -1144,6 +1162,16 @@ pub fn run_stateless(cfg: &TransportCfg, sc: &mut Sc) {
         let o = sc.ex.st_write(1, 1, &vec![0u8; 65520], 70000);
         if o.err() != Some("Input") {
             sc.viol("C14", format!("{}: stateless write of a 65520-byte payload gave {o:?}", cfg.name));
+        }
+        // a delivery longer than 65535 bytes (source coverage measured with tools/coverage.sh showed that this guard of
+        // the stateless read was never reached): refused with the input error whatever the buffer
+        let big = [65536usize, 65537, 65551, 70000][r.below(4)];
+        let cap = [0usize, 16, 65535, 70000][r.below(4)];
+        let o = sc.ex.st_read(2, r.next() % 1000, &r.bytes(big), cap);
+        sc.check_panic(&o, "st_read of an over-long message");
+        sc.count("st.oversize_read");
+        if o.err() != Some("Input") {
+            sc.viol("C14", format!("{}: stateless read of a {big}-byte message gave {o:?}", cfg.name));
         }
     }
     for step in 0..cfg.steps {
@@ -1440,6 +1468,9 @@ pub fn gen_api(run: &mut Run, seed: u64, thorough: bool) {
     ];
     for rep in 0..(if thorough { 12 } else { 3 }) {
         for (res, name, priv_len, pub_len) in cases {
+            if !FULL && (res.contains("ring") || name.contains("P256")) {
+                continue;
+            }
             let mut rng = r.bytes(64);
             if rep == 1 {
                 rng = vec![0xff; 64]; // not a valid P-256 scalar
